@@ -88,7 +88,9 @@ def design(thorough):
            ("AggregatorMC", "Aggregator_exh_q2.cfg"), ("AggregatorMC", "Aggregator_exh_block_q2.cfg"),
            ("ShutdownMC", "Shutdown_exh.cfg"), ("ShutdownMC", "Shutdown_exh_drop.cfg"),
            # engine await loop composed with the aggregator (PoolAgg.tla)
-           ("PoolAggMC", "PoolAgg_exh_nofault.cfg"), ("PoolAggMC", "PoolAgg_exh_small.cfg")]
+           ("PoolAggMC", "PoolAgg_exh_nofault.cfg"), ("PoolAggMC", "PoolAgg_exh_small.cfg"),
+           # result destinations (Sink.tla): own files as coded; what a repair of the shared file must establish
+           ("SinkMC", "Sink_exh.cfg"), ("SinkMC", "Sink_repair.cfg")]
     if thorough:
         pos += [("AggregatorMC", "Aggregator_exh_big.cfg"), ("ShutdownMC", "Shutdown_exh_q2.cfg"),
                 ("ShutdownMC", "Shutdown_exh_big.cfg"),
@@ -97,7 +99,8 @@ def design(thorough):
     neg = [("AggregatorMC", "Aggregator_neg_nodrain.cfg"), ("AggregatorMC", "Aggregator_neg_noflush.cfg"),
            ("AggregatorMC", "Aggregator_neg_nocount.cfg"), ("AggregatorMC", "Aggregator_neg_late.cfg"),
            ("ShutdownMC", "Shutdown_neg_nowait.cfg"), ("ShutdownMC", "Shutdown_neg_reach.cfg"),
-           ("PoolAggMC", "PoolAgg_neg_early.cfg"), ("PoolAggMC", "PoolAgg_neg_early_complete.cfg")]
+           ("PoolAggMC", "PoolAgg_neg_early.cfg"), ("PoolAggMC", "PoolAgg_neg_early_complete.cfg"),
+           ("SinkMC", "Sink_neg_samefile.cfg"), ("SinkMC", "Sink_neg_append_midline.cfg"), ("SinkMC", "Sink_neg_latetrunc.cfg")]
     if thorough:
         neg += [("PoolAggMC", "PoolAgg_neg_reach.cfg")]
     vlib.spec_copy()
@@ -232,6 +235,47 @@ def describe_sig(evs, ev, inv, bad):
                 ex.get("dropped"), ex.get("last_complete"), ex.get("agg_returned"), ex.get("status"), bad))
 
 
+def sink_runs(v, vdrive, d, n):
+    """Result destinations (Sink.tla): real engine runs writing to real files; one TLC run with -continue."""
+    path = os.path.join(d, "aggsink.ndjson")
+    vlib.run_driver(vdrive, ["aggsink", "-out", path, "-runs", str(n)], timeout=1200)
+    rows = sorted(vlib.read_ndjson(path), key=lambda r: r["run"])
+    p = os.path.join(d, "aggsink_sorted.ndjson")
+    vlib.write_ndjson(p, rows)
+    tr = vlib.tlc("TraceSink", "TraceSink.cfg", env={"VERIF_TRACE": p}, workers=1, deadlock=False, timeout=1200,
+                  heap="3g", cont=True)
+    if tr.error or tr.distinct != len(rows) + 1:
+        raise vlib.MachineryError("TraceSink failed (%s, %d states for %d events)\n%s" % (tr.kind, tr.distinct, len(rows), tr.out[-3000:]))
+    per_run = {}
+    for inv, st in tr.all_violations:
+        ln = int(st.get("l", "0"))
+        if ln < 2:
+            continue
+        if inv == "Accepted":
+            raise vlib.MachineryError("TraceSink cannot take event %s" % rows[min(ln, len(rows)) - 1])
+        run = rows[min(ln - 2, len(rows) - 1)]["run"]
+        if run not in per_run or ln > per_run[run][0]:
+            per_run[run] = (ln, st.get("bad", "").replace(" ", "").replace('"', ""))
+    heads = {r["run"]: r for r in rows if r["ev"] == "SinkRun"}
+    for run, (ln, bad) in sorted(per_run.items()):
+        h = heads[run]
+        evs = [r for r in rows if r["run"] == run]
+        files = [{k: e[k] for k in ("file", "lines", "malformed", "partial", "stale_left")} for e in evs if e["ev"] == "File"]
+        nrep = sum(e["n"] for e in evs if e["ev"] == "Reported")
+        v.violation("sink layout=%s kind=%s inv=NoViolation bad=%s" % ("same" if h["same"] else "own", h["kind"], bad),
+                    "%d pool(s) writing %s results to %s: %d reports, files %s: %s" % (
+                        h["pools"], h["kind"], "ONE file name" if h["same"] else "their own files", nrep, files, bad),
+                    replay_obj={"kind": "sink", "module": "TraceSink", "events": evs, "bad": bad},
+                    replay_name="sink_run%d.json" % run)
+    layouts = {}
+    for h in heads.values():
+        key = "%s %s" % (h["kind"], "two pools one file" if h["same"] else ("two pools two files" if h["pools"] == 2 else "one pool"))
+        layouts[key] = layouts.get(key, 0) + 1
+    return {"runs": len(heads), "events": len(rows), "layouts": layouts, "runs_flagged": len(per_run),
+            "opens": sum(1 for r in rows if r["ev"] == "Open"), "writes": sum(1 for r in rows if r["ev"] == "Write"),
+            "trace_spec_states": tr.distinct}
+
+
 def machinery_events(rows, what):
     m = [r for r in rows if r["ev"] == "Machinery"]
     if m:
@@ -272,6 +316,7 @@ def run(tier, v):
     agg_validated += pa_validated
     agg_states += pa_states
     nhooks = sum(1 for r in rows if r["ev"] == "Hook")
+    sink_cov = sink_runs(v, vdrive, d, 60 if thorough else 9)
     nrep = sum(1 for r in rows if r["ev"] == "Report") + sum(r["n"] for r in rows if r["ev"] == "Reports")
     nlines = sum(1 for r in rows if r["ev"] in ("Line", "JLine"))
     ndrop = sum(r["dropped"] for r in rows if r["ev"] == "RunEnd")
@@ -296,7 +341,7 @@ def run(tier, v):
     samples.append({"tlc_format_cases": csamples})
     cov = {
         "states": states, "transitions": trans,
-        "traces_validated_against_impl": agg_validated + sig_validated,
+        "traces_validated_against_impl": agg_validated + sig_validated + sink_cov["runs"],
         "samples": samples,
         "design_tlc": per,
         "in_process_runs": {"validated": agg_validated, "events": len(rows), "reports": nrep, "lines": nlines,
@@ -311,6 +356,7 @@ def run(tier, v):
                         "late_reports_lost": sum(e["entered"] - e["lines"] - e["dropped"] for e in exits),
                         "reports": sum(e["entered"] for e in exits), "trace_spec_states": sig_states},
         "format_cases": {"cases": ncases, "tlc_states": cstates},
+        "result_destinations": sink_cov,
         "evaluations": ncases + agg_validated + sig_validated,
         "distinct_nontrivial": ncases + len({(r["kind"], r["k"], r["q"], r["flush_ms"], r["ids"], r["mode"]) for r in rows if r["ev"] == "Run"}),
         "rule": "format cases: the complete abstract case space of PhoutCases.tla (distinct by construction); in-process "
